@@ -14,6 +14,7 @@ EXPLANATION = (
     "saved copy, and slices never use cursor+constant; (K5) with the depth-guarded entries removed, every parser's call "
     "graph is acyclic (each recursion cycle passes a depth check); (K5b) the same for translators, binder, optimizer and "
     "planners, whose recursion follows AST/plan depth; (K7, information only) FFI entry points and catch_unwind. "
+    "A division / remainder trap is discharged only when every path establishes divisor != 0 and (divisor != -1 or dividend != MIN). "
     "Slice-index bounds, allocation size and parser-loop progress are not decided.")
 ASSUMPTIONS = ["overflow checks are on in the profile the tests run in (dev/test), so an arithmetic Assert is a reachable panic",
                "rapid type analysis from the session entry points decides which operators are reachable"]
